@@ -672,6 +672,40 @@ class Builder:
                 fields.append(dict(sf, number=num)); num += 1
         return fields
 
+    # -- Compute-style extended operations (google.cloud.extended_operations) ----
+    def add_extended_operations(self, file, pkg, host):
+        names = self.ns(pkg)
+        P = f".{pkg}."
+        op = names.fresh("Operation")        # the generator recognises extended operations by this message name
+        file["messages"].append({"name": op, "oneofs": [], "nested": [], "enums": [
+            {"name": "Status", "values": [["UNDEFINED_STATUS", 0], ["DONE", 2104194], ["PENDING", 35394935], ["RUNNING", 121282975]]}],
+            "fields": [{"name": "name", "number": 1, "type": "string", "optional": True, "op_field": "NAME", "op_response_field": "name"},
+                       {"name": "http_error_message", "number": 2, "type": "string", "optional": True, "op_field": "ERROR_MESSAGE"},
+                       {"name": "http_error_status_code", "number": 3, "type": "int32", "optional": True, "op_field": "ERROR_CODE"},
+                       {"name": "status", "number": 4, "type": "enum", "type_name": f"{P}{op}.Status", "optional": True, "op_field": "STATUS"}]})
+        scopes = self.d(st.lists(st.sampled_from(["Zone", "Region", "Global", "Org"]), min_size=1, max_size=4, unique=True))
+        op_services = []
+        for sc in scopes:
+            req = names.fresh(f"Get{sc}OpRequest")
+            file["messages"].append({"name": req, "oneofs": [], "nested": [], "enums": [], "fields": [
+                {"name": "operation", "number": 1, "type": "string", "required": True, "op_response_field": "name"},
+                {"name": "project", "number": 2, "type": "string", "required": True}]})
+            sname = names.fresh(f"{sc}Operations")
+            file["services"].append({"name": sname, "host": host, "methods": [
+                {"name": "Get", "input": P + req, "output": P + op, "op_polling": True,
+                 "http": {"verb": "get", "uri": "/ext/v1/projects/{project}/" + sc.lower() + "Operations/{operation}"}, "signatures": ["project,operation"]}]})
+            op_services.append(sname)
+        main = names.fresh("Addresses")
+        methods = []
+        for i, sname in enumerate(op_services):
+            req = names.fresh(f"Insert{i}AddressRequest")
+            file["messages"].append({"name": req, "oneofs": [], "nested": [], "enums": [], "fields": [
+                {"name": "project", "number": 1, "type": "string", "required": True, "op_request_field": "project"},
+                {"name": "payload", "number": 2, "type": "string"}]})
+            methods.append({"name": f"Insert{i}", "input": P + req, "output": P + op, "op_service": sname,
+                            "http": {"verb": "post", "uri": "/ext/v1/projects/{project}/addresses" + str(i), "body": "*"}, "signatures": ["project"]})
+        file["services"].append({"name": main, "host": host, "methods": methods})
+
     # -- whole API ---------------------------------------------------------
     def api(self):
         root = self.package()
@@ -707,7 +741,11 @@ class Builder:
                 base = fnames.fresh(self.d(st.sampled_from(["foo.bar", "my-file", "File2", "MyTypes", "class", "metadata", "import",
                                                             "retry", "request", "timeout", "a1_b2", "x.y.z", "lib_v1", "types_"])))
             else:
-                base = fnames.fresh(self.d(st.sampled_from(["lib", "types", "resources", "service", "common", "admin"])))
+                # now and then a proto file named like a module the emitted client imports (module-name collisions)
+                pool = ["lib", "types", "resources", "service", "common", "admin"]
+                if _p(self.draw, self.p.get("p_colliding_file_name", 0.08)):
+                    pool = ["operation", "operation_async", "pagers", "retries", "exceptions", "status", "empty", "timestamp", "field_mask", "operations"]
+                base = fnames.fresh(self.d(st.sampled_from(pool)))
             file = {"name": pkg.replace(".", "/") + f"/{base}.proto", "package": pkg, "messages": [], "enums": [], "services": []}
             names = self.ns(pkg)
             self.cur_pkg = pkg
@@ -768,6 +806,8 @@ class Builder:
                             # a message's own name field does not reference itself
                             if r["msg_full"] != "." + full:
                                 fld["ref"] = {"type": r["type"]} if self.d(st.booleans()) else {"child_type": r["type"]}
+        if self.p.get("extended_operations") and _p(self.draw, self.p["extended_operations"]):
+            self.add_extended_operations(api["files"][-1], root, host)
         if dep_file is not None:
             api["file_to_generate"] = [f["name"] for f in api["files"]]
             api["files"].insert(0, dep_file)
